@@ -24,6 +24,13 @@ logging.disable(logging.CRITICAL)
 HERE = os.path.dirname(os.path.abspath(__file__))
 
 
+class E2001own(exceptions.JsonRpcError):
+    """another error class with the code of E2001 (a method's own errors list names it; defined first: E2001 stays the class
+    registered for the code)"""
+    code = 2001
+    message = 'first error (own)'
+
+
 class E2001(exceptions.JsonRpcError):
     code = 2001
     message = 'first error'
@@ -112,8 +119,25 @@ def resolve(doc, node):
     return node if isinstance(node, dict) else {}
 
 
-def project_item(doc, item):
-    """error codes and component names reachable from a path item (following local $refs transitively)"""
+MESSAGES = {2001: 'first error', 2002: 'second error', 2003: 'third error'}
+
+
+def allowed_messages(m):
+    """the texts of the error classes method m itself lists or names in its docstring"""
+    if m is None:
+        return set()
+    own = {'shared': ['first error'], 'own': ['first error (own)'], 'own2': ['first error', 'second error']}.get(m['errs'], [])
+    return set(own) | {'second error' if m['fn'] == 'f1' else None, 'first error' if m['fn'] == 'f3' else None,
+                       'third error' if m['fn'] == 'f5' else None} - {None}
+
+
+def errtext_of(msgs, m):
+    return 'own' if set(msgs) <= allowed_messages(m) else 'foreign'
+
+
+def project_item(doc, item, msgs=None):
+    """error codes and component names reachable from a path item (following local $refs transitively); msgs collects the
+    message texts documented next to a code"""
     codes, names, seen = set(), set(), set()
 
     def visit(node):
@@ -124,6 +148,11 @@ def project_item(doc, item):
                     codes.add(c['const'])
                 if isinstance(c.get('enum'), list):
                     codes.update(x for x in c['enum'] if isinstance(x, int))
+                t = node.get('message')
+                if msgs is not None and isinstance(t, dict) and ('const' in c or 'enum' in c):
+                    if isinstance(t.get('const'), str):
+                        msgs.append(t['const'])
+                    msgs.extend(x for x in t.get('enum', []) if isinstance(x, str))
             r = node.get('$ref')
             if isinstance(r, str) and r.startswith('#/components/schemas/') and r not in seen:
                 seen.add(r)
@@ -201,7 +230,9 @@ def schemas_meta(is_rpc, mk):
     if is_rpc:
         return dict(params_schema=[openrpc.ContentDescriptor(name='p', schema={'type': 'integer'}, summary='PS:' + mk)],
                     result_schema=openrpc.ContentDescriptor(name='result', schema={'type': 'string'}, summary='RS:' + mk))
-    return dict(params_schema={'p': {'type': 'integer', 'title': 'PS:' + mk}}, result_schema={'type': 'string', 'title': 'RS:' + mk})
+    # (the user may write sets where the document has arrays: the library turns them into lists)
+    return dict(params_schema={'p': {'type': 'integer', 'title': 'PS:' + mk, 'enum': {7}}},
+                result_schema={'type': 'string', 'title': 'RS:' + mk, 'enum': {'only'}})
 
 
 def classify(value, own, docprefix=None):
@@ -276,7 +307,8 @@ def project_openapi(doc, scn, path):
         rest = p[len(path):] if p.startswith(path) else 'bad:' + p
         ep = {'': 'root', '/api': 'api'}.get(rest, 'bad:' + rest)
         op = item.get('post', {})
-        codes, cp = project_item(doc, item)
+        msgs = []
+        codes, cp = project_item(doc, item, msgs)
         schema = resolve(doc, op.get('requestBody', {}).get('content', {}).get('application/json', {}).get('schema', {}))
         params = resolve(doc, schema.get('properties', {}).get('params', {}))
         m = next((x for x in scn['methods'] if (x['fn'] if x['name'] == 'own' else x['name']) == name and x['ep'] == ep), None)
@@ -293,7 +325,7 @@ def project_openapi(doc, scn, path):
         entries.append({'fn': m['fn'] if m else 'unknown:' + name, 'name': m['name'] if m else 'unknown', 'ep': ep,
                         'meta': facets_openapi(op, m, name),
                         'result': rcls or (result_kind(doc, rs) if (scn['extractor'] == 'pyd' and rs is not None) else 'na'),
-                        'reqname': reqname, 'errors': sorted(codes), 'tags': (op.get('tags') or ['none'])[0] if len(op.get('tags') or ['x']) == 1 else 'many',
+                        'reqname': reqname, 'errors': sorted(codes), 'errtext': errtext_of(msgs, m), 'tags': (op.get('tags') or ['none'])[0] if len(op.get('tags') or ['x']) == 1 else 'many',
                         'cpref': cp if (scn['extractor'] == 'pyd' and not (m and m.get('meta') == 'schemas')) else 'na'})
     return entries
 
@@ -311,6 +343,7 @@ def project_openrpc(doc, scn):
                         'meta': facets_openrpc(m, sm),
                         'result': rcls or (result_kind(doc, m.get('result', {}).get('schema', {})) if scn['extractor'] == 'pyd' else 'na'),
                         'reqname': 'na', 'errors': sorted(e.get('code') for e in m.get('errors', [])),
+                        'errtext': errtext_of([e.get('message') for e in m.get('errors', [])], sm),
                         'tags': tags[0] if len(tags) == 1 else ('none' if not tags else 'many'),
                         'cpref': 'na'})
     return entries
@@ -331,7 +364,7 @@ def run(scn_wrap, docs_out):
         if m['errs'] == 'shared':
             kw['errors'] = shared_errs
         elif m['errs'] == 'own':
-            kw['errors'] = [openrpc.Error(code=2001, message='first error')] if is_rpc else [E2001]
+            kw['errors'] = [openrpc.Error(code=2001, message='first error (own)')] if is_rpc else [E2001own]
         elif m['errs'] == 'own2':
             kw['errors'] = ([openrpc.Error(code=2001, message='first error'), openrpc.Error(code=2002, message='second error')]
                             if is_rpc else [E2001, E2002])
